@@ -5,7 +5,7 @@
    UpdateMaxProbe never under-approximates, the growth policy does not shrink / probing reaches every bucket,
    CalcCapacity <= physical size); they are proved below for the kinds used by the extracted model. *)
 From Coq Require Import ZArith List Bool Permutation.
-From C11 Require Import GrowModel GenTie GenGrow GenFull GenFullP4 GenMove GenSame GenFacts GenFind.
+From C11 Require Import GrowModel GenTie GenGrow GenFull GenFullP4 GenMove GenSame GenFacts GenFind GenClear.
 Import ListNotations.
 Local Open Scope Z_scope.
 
@@ -765,14 +765,55 @@ Theorem C11_gen_find_buckets_is_model :
 Proof. exact gen_find_buckets_is_model. Qed.
 Print Assumptions C11_gen_find_buckets_is_model.
 
-(* AST facts (props/C11/astfacts.py, regenerated from the clang AST on every run; the statements as canonical strings in Gen_RelocFacts.v) for the parts of the migration that are not translated: pvRelocateItems() is `decl; try { pvRelocateItems(nextBuckets); mBuckets->ExtractNextBuckets(); } catch (...) { }` with an EMPTY handler and nothing after it (the failure is swallowed; the older chain is unlinked only on success); pvRelocateItems(Buckets ptr) first recurses into the next (older) table under `next != nullptr` and unlinks it only after that call returned, then runs the one loop that Gen_HashSetMove translates, then destroys the emptied table as its last statement, and contains no try of its own.  These are the structural facts GrowModel.reloc_gens / relocate are written for (oldest generation first; the first failure stops everything and leaves every table on the path linked). *)
-Theorem C11_reloc_structure_is_source :
-  swallows = true /\
-         unlink_on_success = true /\
-         oldest_first = true /\
-         destroy_last = true /\ no_inner_handler = true /\ loop_is_translated_one = true /\ worker_noexcept_iff_nothrow = true.
-Proof. exact reloc_structure_is_source. Qed.
-Print Assumptions C11_reloc_structure_is_source.
+(* T-gen tie of Clear.  HashSet::Clear(shrink) is regenerated from HashSet.h on every run (Gen_HashSetClear.v: fields mCount / mCapacity / mBuckets; pvClear, pvDestroy() and pvDestroy(extracted chain, false) as recorded calls).  On the handle representation of the model chain (newest table 1, its successor 2 or nullptr 0) the GENERATED function yields the count, capacity and table pointer of the hand model's hclear; without shrink it clears exactly the newest table and destroys exactly the chain extracted from it (older generations left by interrupted migrations), capacity kept; with shrink everything is destroyed and the capacity is 0; bucket-less containers are untouched.  C11_clear_any_state is thereby about the generated field updates; what pvClear does to the buckets stays hand-modelled (clearT) + T-cor. *)
+Theorem C11_gen_clear_is_hclear :
+  forall (B : Type) (b0 : B) (wf0 : bool) (s : hset B) (shrink : bool) (rc rd : Z),
+         let s' := hclear B b0 wf0 s shrink in
+         let (p, rd') :=
+           Gen_HashSetClear.Clear (fun x : Z => x) (next_handle B (gens B s)) (count B s) (capacity B s) 
+             (head_handle B (gens B s)) rc rd shrink in
+         let (p0, rc') := p in
+         let (p1, mb') := p0 in
+         let (c', cap') := p1 in
+         (gens B s = [] -> c' = count B s /\ cap' = capacity B s /\ mb' = 0 /\ rc' = rc /\ rd' = rd /\ s' = s) /\
+         (gens B s <> [] ->
+          c' = count B s' /\
+          cap' = capacity B s' /\
+          mb' = head_handle B (gens B s') /\
+          c' = 0 /\
+          (shrink = true -> rd' = -1 /\ rc' = rc /\ gens B s' = [] /\ cap' = 0) /\
+          (shrink = false ->
+           rc' = 1 /\
+           rd' = next_handle B (gens B s) 1 /\
+           cap' = capacity B s /\ (exists t : table B, hd_error (gens B s) = Some t /\ gens B s' = [clearT B b0 wf0 t]))).
+Proof. exact gen_clear_is_hclear. Qed.
+Print Assumptions C11_gen_clear_is_hclear.
+
+(* AST facts feeding the model.  The statements of HashSet::pvRelocateItems(Buckets ptr) are read off the clang AST on every run (props/C11/astfacts.py -> Gen_RelocFacts.worker_stmts, syntax RelocSyntax.cstmt) and INTERPRETED on the model's chain of tables (GenFacts.interp_worker: `nextBuckets = buckets->GetNextBuckets()`, `if (nextBuckets != nullptr) { pvRelocateItems(nextBuckets); buckets->ExtractNextBuckets(); }` = recursive activation on the older chain, unlinked only after a normal return, the item loop = reloc_buckets (skeleton: Gen_HashSetMove), `buckets->Destroy` = the table disappears; a status other than MOk is an exception in flight and skips the remaining statements, there being no handler).  The interpretation of the CURRENT source equals the hand model's reloc_gens for every chain, newest table and failure schedule -- so every theorem above about interrupted migrations is about the interpreted statements: oldest generation first, the first failure leaves every table on the recursion path linked and not destroyed. *)
+Theorem C11_reloc_gens_is_interpreted_source :
+  forall (B : Type) (b0 : B) (ub : B -> Z -> B) (h : Z -> Z) (cap : Z) (wf0 : bool) (wfu : Z -> bool) 
+           (start : Z -> Z -> Z) (next : Z -> Z -> Z -> Z) (nothrow : bool) (olds : list (table B)) (nw : table B)
+           (sch : list bool),
+         interp_worker B b0 ub h cap wf0 wfu start next nothrow src_wacts olds nw sch =
+         Some (reloc_gens B b0 ub h cap wf0 wfu start next nothrow olds nw sch).
+Proof. exact reloc_gens_is_interpreted_source. Qed.
+Print Assumptions C11_reloc_gens_is_interpreted_source.
+
+(* ... and the wrapper pvRelocateItems() (Gen_RelocFacts.wrapper_stmts: `nextBuckets = mBuckets->GetNextBuckets(); try { pvRelocateItems(nextBuckets); mBuckets->ExtractNextBuckets(); } catch (...) { }`), interpreted with try / catch-all semantics (an MStop raised inside the try is swallowed by the EMPTY catch-all handler, statements after the throw point inside the try are skipped, MTerm = std::terminate out of the noexcept worker), equals the hand model's `relocate` on every chain with at least two tables -- the function through which hadd / hreserve (and with them all theorems on growth failures) use the migration.  Moving ExtractNextBuckets out of the try, a non-empty handler, or any statement the interpreter does not know breaks this proof. *)
+Theorem C11_relocate_is_interpreted_source :
+  forall (B : Type) (b0 : B) (ub : B -> Z -> B) (h : Z -> Z) (cap : Z) (wf0 : bool) (wfu : Z -> bool) 
+           (start : Z -> Z -> Z) (next : Z -> Z -> Z -> Z) (nothrow : bool) (nw g : table B) (older : list (table B))
+           (sch : list bool),
+         interp_wrapper B b0 ub h cap wf0 wfu start next nothrow src_wacts Gen_RelocFacts.wrapper_stmts (nw :: g :: older) sch =
+         Some (relocate B b0 ub h cap wf0 wfu start next nothrow (nw :: g :: older) sch).
+Proof. exact relocate_is_interpreted_source. Qed.
+Print Assumptions C11_relocate_is_interpreted_source.
+
+(* side facts read off the AST: pvRelocateItems(Buckets ptr) is noexcept(areItemsNothrowRelocatable), pvRelocateItems() is noexcept. *)
+Theorem C11_noexcept_facts_hold :
+  noexcept_facts = true.
+Proof. exact noexcept_facts_hold. Qed.
+Print Assumptions C11_noexcept_facts_hold.
 
 (* same-code: BucketLimP4<.., 3, .., true> translated with maxCount symbolic gives literally the same Gallina as BucketLimP4<.., 4, .., true> for pvGetCount, IsFull, pvGetMemPoolIndex, WasFull, pvSetPtrState, pvSetEmpty, Clear, Remove (AddCrt differs per maxCount and is not claimed). *)
 Theorem C11_limp4_same_code_3_is_4 :
